@@ -129,8 +129,9 @@ def apply_rewrites(text, rules, where, drops):
     for r in rules:
         rx = re.compile(r["re"], re.M | (re.S if r.get("dotall") else 0))
         text, n = rx.subn(r["sub"], text)
-        if n != r["count"]:
-            raise Undecided("extraction broke: %s: rewrite /%s/ fired %d times, expected %d"
+        allowed = r["count"] if isinstance(r["count"], list) else [r["count"]]   # a list = any of these counts is fine
+        if n not in allowed:
+            raise Undecided("extraction broke: %s: rewrite /%s/ fired %d times, expected %s"
                             % (where, r["re"], n, r["count"]))
         drops.append("%s: /%s/ -> '%s' x%d%s" % (where, r["re"], r["sub"], n,
                                                   (" (" + r["why"] + ")") if r.get("why") else ""))
